@@ -27,6 +27,7 @@ type GlobalHook = Arc<dyn Fn(&'static str) + Send + Sync>;
 
 thread_local! {
     static THREAD_HOOK: RefCell<Option<ThreadHook>> = const { RefCell::new(None) };
+    static THREAD_HOOK2: RefCell<Option<ThreadHook>> = const { RefCell::new(None) };
     static EVICT_RECORD: Cell<bool> = const { Cell::new(false) };
     static EVICT_ROUNDS: RefCell<Vec<EvictRound>> = const { RefCell::new(Vec::new()) };
 }
@@ -50,6 +51,19 @@ pub fn yield_point(id: &'static str) {
         });
         return;
     }
+    // second level: yield points reached while the first-level hook is running (e.g. a hook that
+    // steps the processor on behalf of a blocked caller) go to the second-level hook, if any
+    let taken2 = THREAD_HOOK2.with(|h| h.try_borrow_mut().ok().and_then(|mut h| h.take()));
+    if let Some(mut hook) = taken2 {
+        hook(id);
+        THREAD_HOOK2.with(|h| {
+            let mut h = h.borrow_mut();
+            if h.is_none() {
+                *h = Some(hook);
+            }
+        });
+        return;
+    }
     if GLOBAL_HOOK_SET.load(Ordering::Relaxed) != 0 {
         let g = GLOBAL_HOOK.read().unwrap().clone();
         if let Some(g) = g {
@@ -61,6 +75,11 @@ pub fn yield_point(id: &'static str) {
 /// Install (or remove) the hook of the calling thread.
 pub fn set_thread_yield_hook(hook: Option<ThreadHook>) {
     THREAD_HOOK.with(|h| *h.borrow_mut() = hook);
+}
+
+/// Install (or remove) the second-level hook of the calling thread (see `yield_point`).
+pub fn set_thread_yield_hook2(hook: Option<ThreadHook>) {
+    THREAD_HOOK2.with(|h| *h.borrow_mut() = hook);
 }
 
 /// Install (or remove) the process-wide fallback hook.
